@@ -11,6 +11,8 @@ FIRST_MISSED = {
     "C04-w2-1", "C05-w2-1", "C05-w2-2", "C05-w2-3", "C06-w2-2", "C08-w2-1", "C08-w2-2",
     "C09-w2-1", "C09-w2-2", "C09-w2-3", "C10-w2-1", "C10-w2-2", "C10-w2-3", "C15-w2-3", "C20-w2-1", "C20-w2-2",
     "C04-w3-2", "C05-w3-2", "C08-w3-1", "C08-w3-2", "C09-w3-2", "C10-w3-1", "C10-w3-2", "C11-w3-1", "C20-w3-1", "C20-w3-2",
+    "C04-w4-1", "C04-w4-2", "C05-w4-1", "C05-w4-2", "C08-w4-1", "C08-w4-2", "C09-w4-1", "C09-w4-2", "C10-w4-1", "C10-w4-2",
+    "C11-w4-1", "C11-w4-2", "C15-w4-2", "C20-w4-1",
 }
 
 WHAT = {
@@ -80,6 +82,24 @@ WHAT = {
     "C15-w3-2": "default one-hour cap dropped when the context has a deadline",
     "C20-w3-1": "case-insensitive confinement comparison",
     "C20-w3-2": "missing final path element resolved by its parent only (link planted before the read)",
+    "C04-w4-1": "constant in tail position returned without a step: a value comes back after the budget ran out / the context was cancelled",
+    "C04-w4-2": "evaluator nesting restarts from zero inside a nested load",
+    "C05-w4-1": "context not bridged when none is threaded: a function defined under a since-cancelled context fails from context-less entry points",
+    "C05-w4-2": "bytes append! / append-bytes! half-applied when a later element is refused",
+    "C06-w4-1": "an error raised by a handler is offered to the later bindings of the same handler-bind",
+    "C06-w4-2": "load builtins re-stamp the error's call stack and lose the host-panic marker",
+    "C08-w4-1": "operator-position fast path skips the lexical chain for names of special operators",
+    "C08-w4-2": "in-package re-imports the language package on every entry, replacing the package's own definitions",
+    "C09-w4-1": "let / let* complete an abbreviated binding in place in the parsed program",
+    "C09-w4-2": "process-wide lazily filled table of type-name symbols shared by all runtimes",
+    "C10-w4-1": "zone-less timestamps accepted and read in the host's local time zone",
+    "C10-w4-2": "unknown-package errors suggest a near name chosen by ranging over the registry map",
+    "C11-w4-1": "append-bytes! onto an empty accumulator adopts the source's buffer",
+    "C11-w4-2": "zip carves all tuples from one slab without clamping their capacity",
+    "C15-w4-1": "a negative host ceiling removes the default one-hour cap",
+    "C15-w4-2": "0-means-no-deadline sentinel: sleeps at or after the deadline are admitted when the context's Err lags",
+    "C20-w4-1": "a RootDir that cleans to \".\" counts as unconfigured",
+    "C20-w4-2": "confinement approvals memoised per (root, location)",
 }
 
 
